@@ -104,7 +104,14 @@ pub enum Node {
   B(BOp, Box<Node>, Box<Node>),
   /// merge_all(n) (None = flatten / unbounded) over `outer` whose items pick
   /// one of `inners` (by weight modulo)
-  Flat { n: Option<u8>, outer: Box<Node>, inners: Vec<Node> },
+  Flat {
+    n: Option<u8>,
+    outer: Box<Node>,
+    inners: Vec<Node>,
+    /// which API spelling: 0 map+merge_all(n)/flatten, 1 flat_map, 2 concat_map, 3 map+concat_all
+    #[serde(default)]
+    form: u8,
+  },
 }
 
 /// side-channel counters of a built pipeline
@@ -185,7 +192,7 @@ fn edge(e: u8) -> ThrottleEdge {
 macro_rules! build_fn {
   ($fname:ident, $env:ty, $box:ty, $sched:expr, $subject:ty, $subscriber:ty,
    $merge:ident, $zip:ident, $combine:ident, $wlf:ident, $take_until:ident, $skip_until:ident, $sample:ident,
-   $merge_all:ident, $flatten:ident, $finalize:ident, $share:ident, $delay:ident, $observe_on:ident) => {
+   $merge_all:ident, $flatten:ident, $flat_map:ident, $concat_map:ident, $concat_all:ident, $finalize:ident, $share:ident, $delay:ident, $observe_on:ident) => {
     pub fn $fname(node: &Node, env: &$env) -> $box {
       match node {
         Node::Hot(i) => env.hots[*i % env.hots.len()].clone().box_it(),
@@ -246,7 +253,7 @@ macro_rules! build_fn {
             BOp::Buffer => a.buffer(b.map(|_| ())).map(Val::L).box_it(),
           }
         }
-        Node::Flat { n, outer, inners } => {
+        Node::Flat { n, outer, inners, form } => {
           let o = $fname(outer, env);
           let inners = inners.clone();
           let env2 = env.clone();
@@ -258,9 +265,12 @@ macro_rules! build_fn {
               $fname(&inners[k], &env2)
             }
           };
-          match n {
-            Some(n) => o.map(f).$merge_all((*n).max(1) as usize).box_it(),
-            None => o.map(f).$flatten().box_it(),
+          match (form % 4, n) {
+            (1, _) => o.$flat_map(f).box_it(),
+            (2, _) => o.$concat_map(f).box_it(),
+            (3, _) => o.map(f).$concat_all().box_it(),
+            (_, Some(n)) => o.map(f).$merge_all((*n).max(1) as usize).box_it(),
+            (_, None) => o.map(f).$flatten().box_it(),
           }
         }
         Node::U(op, s) => {
@@ -367,6 +377,9 @@ build_fn!(
   sample,
   merge_all,
   flatten,
+  flat_map,
+  concat_map,
+  concat_all,
   finalize,
   share,
   delay,
@@ -389,6 +402,9 @@ build_fn!(
   sample_threads,
   merge_all_threads,
   flatten_threads,
+  flat_map_threads,
+  concat_map_threads,
+  concat_all_threads,
   finalize_threads,
   share_threads,
   delay_threads,
@@ -419,8 +435,13 @@ impl Node {
           rec(a, out);
           rec(b, out);
         }
-        Node::Flat { n, outer, inners } => {
-          out.push(if n.is_some() { "MergeAll".into() } else { "Flatten".into() });
+        Node::Flat { n, outer, inners, form } => {
+          out.push(match form % 4 {
+            1 => "FlatMap".into(),
+            2 => "ConcatMap".into(),
+            3 => "ConcatAll".into(),
+            _ => if n.is_some() { "MergeAll".into() } else { "Flatten".into() },
+          });
           rec(outer, out);
           for i in inners {
             rec(i, out);
@@ -614,6 +635,7 @@ pub fn gen_node(rng: &mut Rng, cfg: &GenCfg, depth: usize) -> Node {
         n: if rng.chance(1, 3) { None } else { Some(rng.range(1, 3) as u8) },
         outer: Box::new(gen_node(rng, cfg, depth + 1)),
         inners: (0..k).map(|_| gen_node(rng, cfg, depth + 2)).collect(),
+        form: if rng.chance(1, 2) { 0 } else { rng.range(1, 3) as u8 },
       }
     }
     _ => Node::U(gen_uop(rng, cfg), Box::new(gen_node(rng, cfg, depth + 1))),
